@@ -801,3 +801,304 @@ def model_float(model, t):
     except Exception:
         pass
     raise ValueError("cannot evaluate %s" % v)
+
+
+# --------------------------------------------------------------------------
+# numeric evaluation of terms under a concrete assignment of the base variables
+# (used for concrete witnesses that guide path exploration; never for verdicts)
+# --------------------------------------------------------------------------
+
+
+class Uncertain(Exception):
+    """numeric evaluation is too close to a decision boundary / undefined"""
+
+
+_NUM_EPS = 1e-9
+_COMPILED = {}  # ast id -> (term kept alive, node)
+_UF_NUM = {"tanh": math.tanh, "exp": math.exp, "log": math.log, "sigmoid": lambda z: 1 / (1 + math.exp(-z))}
+
+
+class _Node:
+    __slots__ = ("op", "args", "val", "id", "is_bool", "is_int")
+
+    def __init__(self, op, args=(), val=None, id=None, is_bool=False, is_int=False):
+        self.op, self.args, self.val, self.id, self.is_bool, self.is_int = op, args, val, id, is_bool, is_int
+
+
+_OPMAP = None
+
+
+def _opmap():
+    global _OPMAP
+    if _OPMAP is None:
+        _OPMAP = {
+            z3.Z3_OP_ADD: "add", z3.Z3_OP_MUL: "mul", z3.Z3_OP_SUB: "sub", z3.Z3_OP_UMINUS: "neg", z3.Z3_OP_DIV: "div",
+            z3.Z3_OP_IDIV: "idiv", z3.Z3_OP_MOD: "mod", z3.Z3_OP_TO_REAL: "id", z3.Z3_OP_TO_INT: "floor",
+            z3.Z3_OP_POWER: "pow", z3.Z3_OP_LE: "le", z3.Z3_OP_LT: "lt", z3.Z3_OP_GE: "ge", z3.Z3_OP_GT: "gt",
+            z3.Z3_OP_EQ: "eq", z3.Z3_OP_DISTINCT: "ne", z3.Z3_OP_AND: "and", z3.Z3_OP_OR: "or", z3.Z3_OP_NOT: "not",
+            z3.Z3_OP_IMPLIES: "implies", z3.Z3_OP_XOR: "xor", z3.Z3_OP_ITE: "ite",
+        }
+    return _OPMAP
+
+
+def compile_term(t):
+    """z3 term -> light-weight evaluation DAG (built once per term, cached by AST id)"""
+    i = t.get_id()
+    hit = _COMPILED.get(i)
+    if hit is not None:
+        return hit[1]
+    if z3.is_int_value(t):
+        n = _Node("const", val=t.as_long(), id=i)
+    elif z3.is_rational_value(t):
+        n = _Node("const", val=Fraction(t.numerator_as_long(), t.denominator_as_long()), id=i)
+    elif z3.is_true(t):
+        n = _Node("const", val=True, id=i)
+    elif z3.is_false(t):
+        n = _Node("const", val=False, id=i)
+    elif z3.is_algebraic_value(t):
+        a = t.approx(20)
+        n = _Node("const", val=a.numerator_as_long() / a.denominator_as_long(), id=i)
+    else:
+        k = t.decl().kind()
+        ch = t.children()
+        if k == z3.Z3_OP_UNINTERPRETED:
+            name = t.decl().name()
+            if not ch:
+                n = _Node("var", val=name, id=i, is_bool=z3.is_bool(t), is_int=z3.is_int(t))
+            else:
+                n = _Node("uf", tuple(compile_term(c) for c in ch), val=name, id=i)
+        else:
+            op = _opmap().get(k)
+            if op is None:
+                n = _Node("unknown", val=t.decl().name(), id=i)
+            else:
+                n = _Node(op, tuple(compile_term(c) for c in ch), id=i, is_int=(op == "eq" and z3.is_int(ch[0])))
+    if len(_COMPILED) > 200000:
+        _COMPILED.clear()
+    _COMPILED[i] = (t, n)
+    return n
+
+
+def _close(a, b):
+    if isinstance(a, (int, Fraction)) and isinstance(b, (int, Fraction)):
+        return False  # exact arithmetic: no uncertainty
+    return abs(a - b) < _NUM_EPS * max(1.0, abs(a), abs(b))
+
+
+def numeval(t, vals, defsym, rng, cache=None):
+    """Fraction/float/bool value of z3 term t.  `vals` maps base-variable names to values and is
+    extended lazily (rand draws: rationals in [0,1); other reals: rationals ~ N(0,1)); defined
+    symbols are computed from their definitions in `defsym`.  Exact rationals are compared exactly,
+    floats with a relative margin (Uncertain inside the margin)."""
+    if cache is None:
+        cache = {}
+    if not is_sym(t):
+        return t
+    root = compile_term(t)
+
+    def num(x):
+        if not is_sym(x):
+            return x
+        return ev(compile_term(x))
+
+    def evdef(d):
+        kind = d[0]
+        try:
+            if kind == "sqrt":
+                a = num(d[1])
+                if a < 0:
+                    raise Uncertain("sqrt<0")
+                if isinstance(a, (int, Fraction)):
+                    r = _isqrt_frac(Fraction(a))
+                    if r is not None:
+                        return r
+                return math.sqrt(a)
+            if kind == "root":
+                a = num(d[2])
+                q = d[1]
+                return math.copysign(abs(a) ** (1.0 / q), a) if q % 2 else a ** (1.0 / q)
+            if kind == "cos":
+                return math.cos(num(d[1]))
+            if kind == "sin":
+                return math.sin(num(d[1]))
+            if kind == "arccos":
+                return math.acos(num(d[1]))
+            if kind == "div":
+                b = num(d[2])
+                if b == 0 or _close(b, 0):
+                    raise Uncertain("div0")
+                a = num(d[1])
+                if isinstance(a, int) and isinstance(b, int):
+                    return Fraction(a, b)
+                return a / b
+            if kind == "floor":
+                return math.floor(num(d[1]))
+            if kind == "ceil":
+                return math.ceil(num(d[1]))
+            if kind == "trunc":
+                return math.trunc(num(d[1]))
+        except (ValueError, OverflowError, ZeroDivisionError):
+            raise Uncertain("domain")
+        raise Uncertain("def " + str(kind))
+
+    def ev(n):
+        i = n.id
+        if i in cache:
+            r = cache[i]
+            if r is _UNC:
+                raise Uncertain("cached")
+            return r
+        try:
+            r = ev1(n)
+        except Uncertain:
+            cache[i] = _UNC
+            raise
+        cache[i] = r
+        return r
+
+    def ev1(n):
+        op = n.op
+        if op == "const":
+            return n.val
+        a = n.args
+        if op == "var":
+            name = n.val
+            if name in vals:
+                return vals[name]
+            if name == "pi":
+                return math.pi
+            d = defsym.get(n.id)
+            if d is not None:
+                v = evdef(d)
+            elif n.is_bool:
+                v = rng.random() < 0.5
+            elif n.is_int:
+                v = rng.randint(0, 3)
+            elif name.startswith("u!"):
+                v = Fraction(rng.randrange(0, 4096), 4096)
+            else:
+                v = Fraction(int(rng.gauss(0.0, 1.0) * 256), 256)
+            vals[name] = v
+            return v
+        if op == "add":
+            r = 0
+            for c in a:
+                r = r + ev(c)
+            return r
+        if op == "mul":
+            r = 1
+            for c in a:
+                r = r * ev(c)
+            return r
+        if op == "sub":
+            r = ev(a[0])
+            for c in a[1:]:
+                r = r - ev(c)
+            return r
+        if op == "neg":
+            return -ev(a[0])
+        if op == "id":
+            return ev(a[0])
+        if op in ("div", "idiv"):
+            x, y = ev(a[0]), ev(a[1])
+            if y == 0 or _close(y, 0):
+                raise Uncertain("div0")
+            if op == "idiv":
+                return math.floor(x / y)
+            if isinstance(x, int) and isinstance(y, int):
+                return Fraction(x, y)
+            return x / y
+        if op == "mod":
+            x, y = ev(a[0]), ev(a[1])
+            if y == 0:
+                raise Uncertain("mod0")
+            return x % y
+        if op == "floor":
+            return math.floor(ev(a[0]))
+        if op == "pow":
+            return ev(a[0]) ** ev(a[1])
+        if op in ("le", "lt", "ge", "gt"):
+            x, y = ev(a[0]), ev(a[1])
+            if _close(x, y):
+                raise Uncertain("cmp")
+            if op == "le":
+                return x <= y
+            if op == "lt":
+                return x < y
+            if op == "ge":
+                return x >= y
+            return x > y
+        if op in ("eq", "ne"):
+            x, y = ev(a[0]), ev(a[1])
+            if isinstance(x, bool) or isinstance(y, bool):
+                r = bool(x) == bool(y)
+            elif isinstance(x, (int, Fraction)) and isinstance(y, (int, Fraction)):
+                r = x == y
+            elif _close(x, y):
+                raise Uncertain("eq")
+            else:
+                r = False
+            return r if op == "eq" else not r
+        if op == "and":
+            unc = None
+            for c in a:
+                try:
+                    if not ev(c):
+                        return False
+                except Uncertain as e:
+                    unc = e
+            if unc is not None:
+                raise unc
+            return True
+        if op == "or":
+            unc = None
+            for c in a:
+                try:
+                    if ev(c):
+                        return True
+                except Uncertain as e:
+                    unc = e
+            if unc is not None:
+                raise unc
+            return False
+        if op == "not":
+            return not ev(a[0])
+        if op == "implies":
+            try:
+                if not ev(a[0]):
+                    return True
+            except Uncertain:
+                if ev(a[1]):
+                    return True
+                raise
+            return bool(ev(a[1]))
+        if op == "xor":
+            return bool(ev(a[0])) != bool(ev(a[1]))
+        if op == "ite":
+            try:
+                c0 = ev(a[0])
+            except Uncertain:
+                # |x| at x ~ 0, clamp at the bound, ...: both branches agree up to rounding
+                x, y = ev(a[1]), ev(a[2])
+                if isinstance(x, bool) or isinstance(y, bool):
+                    if x == y:
+                        return x
+                    raise
+                if abs(float(x) - float(y)) < _NUM_EPS * max(1.0, abs(float(x))):
+                    return float(x)
+                raise
+            return ev(a[1]) if c0 else ev(a[2])
+        if op == "uf":
+            f = _UF_NUM.get(n.val)
+            if f is None:
+                raise Uncertain(n.val)
+            return f(*[float(ev(c)) for c in a])
+        raise Uncertain("op %s" % n.val)
+
+    try:
+        return ev(root)
+    except (OverflowError, ValueError, ZeroDivisionError, RecursionError):
+        raise Uncertain("arith")
+
+
+_UNC = object()
